@@ -217,7 +217,7 @@ func valsRuns(r *rand.Rand, enc string, n, maxRun int, base int64) [][]byte {
 // ---------------------------------------------------------------------------
 // medium key-set families
 
-var familyNames = []string{"uniform", "twosym", "prefixes", "wide", "palette", "caterpillar", "ascii", "nibdiv", "paletteDeep", "samehigh", "mixed"}
+var familyNames = []string{"uniform", "twosym", "prefixes", "wide", "palette", "caterpillar", "ascii", "nibdiv", "paletteDeep", "samehigh", "longtail", "mixed"}
 
 func uniq(ks []string) []string {
 	sort.Strings(ks)
@@ -394,6 +394,33 @@ func genKeys(r *rand.Rand, family string, n, maxLen int) []string {
 		for i := 0; i < n; i++ {
 			ks = append(ks, randBytes(r, r.Intn(maxLen+1), alpha))
 		}
+	case "longtail":
+		// a short distinguishing head and a long tail: leaf tails (and, where siblings share the
+		// beginning of their tails, stored prefixes) of 33 .. 600 bytes, with lengths on both
+		// sides of 64, 128 and 256
+		if n > 60 {
+			n = 60
+		}
+		heads := []byte{0x00, 0x41, 0x42, 0x7f, 0x80, 0xff}
+		lens := []int{33, 63, 64, 65, 66, 100, 127, 128, 129, 200, 255, 256, 257, 300, 600}
+		var shared string
+		for i := 0; i < n; i++ {
+			h := randBytes(r, 1+r.Intn(2), heads)
+			l := lens[r.Intn(len(lens))]
+			t := randBytes(r, l, nil)
+			if shared != "" && r.Intn(3) == 0 {
+				// a sibling that shares the first 64+ bytes of the previous tail and differs late
+				cut := 60 + r.Intn(10)
+				if cut > len(shared) {
+					cut = len(shared)
+				}
+				t = shared[:cut] + randBytes(r, 1+r.Intn(80), nil)
+				h = ks[len(ks)-1][:len(ks[len(ks)-1])-len(shared)]
+			}
+			shared = t
+			ks = append(ks, h+t)
+		}
+		sort.Strings(ks)
 	case "mixed":
 		for len(ks) < n {
 			f := familyNames[r.Intn(len(familyNames)-1)]
@@ -498,6 +525,39 @@ func querySet(r *rand.Rand, keys []string, limit int) []string {
 	for i := 0; i < 10; i++ {
 		add(randBytes(r, r.Intn(maxLen+2), nil))
 	}
+	// near misses LATE in long keys: same length, one byte changed at the end or next to a
+	// power-of-two offset (a comparison that stops early, a fixed-size scratch buffer).  These
+	// are kept whatever the limit.
+	must := map[string]bool{}
+	longKeys := []string{}
+	for _, k := range sample {
+		if len(k) > 16 {
+			longKeys = append(longKeys, k)
+		}
+	}
+	r.Shuffle(len(longKeys), func(i, j int) { longKeys[i], longKeys[j] = longKeys[j], longKeys[i] })
+	if len(longKeys) > 8 {
+		longKeys = longKeys[:8]
+	}
+	for _, k := range longKeys {
+		offs := []int{len(k) - 1, len(k) - 2, len(k) - 1 - r.Intn(len(k)/2)}
+		for _, o := range []int{15, 16, 31, 32, 33, 63, 64, 65, 66, 127, 128, 129, 255, 256, 257} {
+			if o < len(k) && r.Intn(3) == 0 {
+				offs = append(offs, o, len(k)-1-o)
+			}
+		}
+		for _, o := range offs {
+			if o < 0 || o >= len(k) {
+				continue
+			}
+			c := []byte(k)
+			c[o] ^= 1 << uint(r.Intn(8))
+			must[string(c)] = true
+		}
+	}
+	for q := range must {
+		delete(qs, q)
+	}
 	out := make([]string, 0, len(qs))
 	for q := range qs {
 		out = append(out, q)
@@ -506,8 +566,11 @@ func querySet(r *rand.Rand, keys []string, limit int) []string {
 	if limit > 0 && len(out) > limit {
 		r.Shuffle(len(out), func(i, j int) { out[i], out[j] = out[j], out[i] })
 		out = out[:limit]
-		sort.Strings(out)
 	}
+	for q := range must {
+		out = append(out, q)
+	}
+	sort.Strings(out)
 	return out
 }
 
